@@ -2,6 +2,9 @@ package decode
 
 import (
 	"fmt"
+	"io"
+	"os"
+	"runtime"
 	"runtime/metrics"
 	"time"
 
@@ -22,6 +25,8 @@ const (
 	CallStackLimit = 8 << 20
 	remeasure      = 3
 )
+
+var debugMeter = os.Getenv("VERIF_DEBUG") != ""
 
 // Meter measures calls into the code under test.
 type Meter struct {
@@ -91,6 +96,9 @@ func (m *Meter) Call(what string, size int, mk func() func()) (kind, detail stri
 	if o.Panic != nil {
 		return "panic", fmt.Sprintf("%s panicked on a %d-byte input: %v\n%s", what, size, o.Panic, o.Stack), o
 	}
+	if debugMeter && (o.Alloc > 32<<20 || o.Dur > 200*time.Millisecond || o.Grow > 1<<20) {
+		fmt.Fprintf(os.Stderr, "METER %s size=%d dur=%v alloc=%dMiB grow=%dKiB\n", what, size, o.Dur, o.Alloc>>20, o.Grow>>10)
+	}
 	if o.Dur > m.MaxDur {
 		m.MaxDur, m.MaxDurWhat = o.Dur, what
 	}
@@ -106,6 +114,9 @@ func (m *Meter) Call(what string, size int, mk func() func()) (kind, detail stri
 	// Re-measure: the best of several fresh attempts counts.
 	best := o
 	for i := 0; i < remeasure; i++ {
+		// A collection empties the runtime's cache of free stack spans, so that stack growth of the
+		// fresh goroutine is visible again in the stack memory statistic.
+		runtime.GC()
 		x := m.onceFresh(mk())
 		if x.Panic != nil {
 			return "panic", fmt.Sprintf("%s panicked on a %d-byte input (on re-measurement): %v\n%s", what, size, x.Panic, x.Stack), x
@@ -162,3 +173,43 @@ func sizeBucket(n uint64) string {
 	}
 	return "inf"
 }
+
+// DepthLimit is the call-stack depth (frames) at a Read callback above which the depth is
+// considered driven by the input. Ordinary decoding reaches a few dozen frames; the proof
+// verifier is limited to 128 levels.
+const DepthLimit = 4096
+
+// DepthProbe wraps the reader handed to code under test and samples the depth of the call stack
+// from which it is read. A decoder that recurses once per Read of an incomplete item shows up as
+// a depth that grows with the number of reads (goroutine stacks are limited to 1 GB; exceeding
+// that is a fatal, unrecoverable runtime error). Once tripped it stops feeding data.
+type DepthProbe struct {
+	R       io.Reader
+	Reads   int
+	Max     int
+	Tripped bool
+}
+
+var errDepthTripped = fmt.Errorf("verif: depth probe tripped")
+
+// Read implements io.Reader.
+func (p *DepthProbe) Read(b []byte) (int, error) {
+	p.Reads++
+	if p.Reads&127 == 0 && !p.Tripped {
+		var pcs [DepthLimit]uintptr
+		d := runtime.Callers(0, pcs[:])
+		if d > p.Max {
+			p.Max = d
+		}
+		if d >= DepthLimit {
+			p.Tripped = true
+		}
+	}
+	if p.Tripped {
+		return 0, errDepthTripped
+	}
+	return p.R.Read(b)
+}
+
+// AllocBytes returns the cumulative number of bytes allocated on the heap by the process.
+func AllocBytes() uint64 { return allocBytes() }
